@@ -1234,7 +1234,17 @@ class App(falcon.app.App):
         params: Dict[str, Any],
         ws: Optional[WebSocket] = None,
     ) -> None:
-        falcon._logger.error('[FALCON] Unhandled exception in ASGI app', exc_info=error)
+        try:
+            falcon._logger.error(
+                '[FALCON] Unhandled exception in ASGI app', exc_info=error
+            )
+        except Exception:
+            # NOTE: Logging runs code of the raised object (__bool__,
+            #   __traceback__, ...); whatever that does, answer 500.
+            falcon._logger.error(
+                '[FALCON] Unhandled exception in ASGI app '
+                '(the traceback could not be rendered)'
+            )
 
         if resp:
             self._compose_error_response(req, resp, falcon.HTTPInternalServerError())
